@@ -20,6 +20,7 @@ def oracle(line: str, obs: Obs):
     state, live = {}, {}
     last_rx_conn = {}
     inflight = {}           # conn -> set of unanswered hbh delivered to apps
+    ident = {}              # conn -> host identity
     for ev, lines in obs.blocks:
         t = ev.split(" ")
         if t[0] == "rx":
@@ -48,6 +49,9 @@ def oracle(line: str, obs: Obs):
                 ok_state = state.get(c) in ("READY", "WAITDWA") and live.get(c) == "1"
                 first = (c, key) not in answered
                 sig = "equal_hbh_on_two_connections" if others_same_hbh else None
+                # the peer has two handshaken connections and the answer went out on the other one
+                if not sig and len(ans_outs) == 1 and ans_outs[0][0] != c and ident.get(c) and ident.get(ans_outs[0][0]) == ident.get(c):
+                    sig = "answer_on_peers_other_connection"
                 if ok_state and first:
                     if [cc for cc, _ in ans_outs] != [c]:
                         fails.append({"what": "application answer not transmitted on (only) the connection the request arrived on",
@@ -69,6 +73,8 @@ def oracle(line: str, obs: Obs):
                 d = kv(l)
                 state[c] = d["state"]
                 live[c] = d["live"]
+                if d.get("ident", "-") != "-":
+                    ident[c] = d["ident"]
     return fails
 
 
@@ -107,6 +113,13 @@ def scenarios(rng: random.Random, tier: str):
             evs.append(f"ans 0 {k} 2001")
             if rng.random() < 0.2:
                 evs.append(f"ans 0 {k} 2001")          # second answer for the same request
+        # a peer with two handshaken connections: requests arrive on the extra one, both stay up
+        if rng.random() < 0.15:
+            extra = npeers
+            evs.insert(0, f"acc | rx {extra} " + nodegen.cer(names[0], "4", n(), n()) + f" | rx {extra} " + nodegen.ccr(n(), n(), names[0]))
+            evs.append(f"ans 0 0 2001")
+            out.append(pre + " | " + " | ".join(evs))
+            continue
         # overlapping reconnect: the requester opens a second connection, then the first one is lost
         if rng.random() < 0.25:
             evs.insert(len(evs) // 2, f"acc | rx {npeers} " + nodegen.cer("peer1.x", "4", n(), n()) + " | eof 0")
